@@ -39,8 +39,8 @@ PROPS = {
                 assumptions=["A-PI 3 < pi < 4 (only positivity is used)", "SLM-mask DMM side effect of _add is excluded by precondition (no pending SLM mask DMM)"]),
     "C13": dict(lemmas=[], not_decided=["acceptance direction (mode allows => returns) beyond the guards", "declare_channel / config_slm_mask typestate (bounded stand-in only)"],
                 assumptions=[]),
-    "C15": dict(lemmas=["L-lpsi-agree", "L-lpsi-extend"], not_decided=["emulated populations under drift correction (QuTiP): only the drift bookkeeping is specified (the correction covers the time since the last real pulse "
-                                                      "without gap or overlap) and proved for modify_eom_setpoint; enable_eom_mode / disable_eom_mode / add_eom_pulse drift terms: bounded stand-in",
+    "C15": dict(lemmas=["L-lpsi-agree", "L-lpsi-extend"], not_decided=["emulated populations under drift correction (QuTiP): only the drift bookkeeping is specified - every correction covers, without gap or overlap, the time "
+                                                      "since the last real pulse during which the off-detuning is applied - and proved for enable_eom_mode, modify_eom_setpoint, disable_eom_mode and add_eom_pulse",
                                                       "closest off-detuning option (numpy argmin; bounded stand-in)"],
                 assumptions=["A-EOMBW"]),
     "C16": dict(lemmas=[], not_decided=["Blackman / Kaiser / Interpolated numerics, from_max_val, __eq__ vs isclose, finiteness: bounded stand-in (durations 1..40 exhaustive)",
